@@ -1,3 +1,7 @@
 import PPModel.Base.Sexp
 import PPModel.Mod.LineCol
 import PPModel.Driver.LineCol
+import PPModel.Mod.ParseTypes
+import PPModel.Mod.Parse
+import PPModel.Mod.Entry
+import PPModel.Driver.Parse
